@@ -617,7 +617,14 @@ namespace c11
         int i = pick_line([&](const SLine& l) { return !l.markup && !l.comment && !l.ctx.empty() && sk.open_of(l).name != "Info"; }); if(i < 0) break; const SLine& l = sk.lines[(size_t)i];
         auto tk = split_ws(l.txt); int sub = t.pick({3, 3, 2});
         if(sub == 0) { tk.pop_back(); f.kind = "line:short"; if(tk.empty()) { f.text = drop_lines(w, sk, (size_t)i, (size_t)i); f.ok = true; f.detail = "in " + sk.open_of(l).name; break; } }
-        else if(sub == 1) { tk.push_back(tk.back()); f.kind = "line:long"; }
+        else if(sub == 1)
+        {
+          // tuple lines only: their length is fixed by a declared dimension.  Single-value lines (Mapping, Patch, Params) are read
+          // with operator>> which ignores whatever follows the number ("7 7" reads as 7) - lax, but none of the violations the
+          // property lists (false alarm fixed; noted in findings/C11.md as an observation)
+          const std::string& cn = sk.open_of(l).name; if(!(cn == "Vertices" || cn == "Topology" || cn == "Attribute" || cn == "Points" || cn == "Triangles")) break;
+          tk.push_back(tk.back()); f.kind = "line:long";
+        }
         else { tk[(size_t)t.range(0, (int)tk.size() - 1)] = t.flag(1, 2) ? "abc" : "--5"; f.kind = "line:not-a-number"; }
         f.detail = "in " + sk.open_of(l).name; f.text = replace_range(w, l.beg, l.end, join(tk)); f.ok = true; break; }
       }
